@@ -53,7 +53,9 @@ func newPM(options plugintypes.OperatorOptions) (plugintypes.Operator, error) {
 		DFA:                  true,
 	})
 
-	m, _ := memoizeDo(options.Memoizer, data, func() (any, error) { return builder.Build(dict), nil })
+	// The cache is process wide and shared with every other call site: the key names the kind of
+	// compiled value, not only the text it was compiled from.
+	m, _ := memoizeDo(options.Memoizer, "pm:"+data, func() (any, error) { return builder.Build(dict), nil })
 	// TODO this operator is supposed to support snort data syntax: "@pm A|42|C|44|F"
 	return &pm{matcher: m.(ahocorasick.AhoCorasick), minLen: minPatternLen(dict)}, nil
 }
